@@ -192,6 +192,7 @@ def check(case, rec):
     if r is t:
         raise Violation("returned-receiver", "subsample returned self")
     got = observe.snapshot(r)
+    observe.check_lookups(r, got, "subsample result")
     if observe.snapshot(t) != before:
         raise Violation("input-modified", "subsample changed its input: %r "
                         "-> %r" % (before, observe.snapshot(t)))
